@@ -151,3 +151,12 @@ chk("C15", "stateful script testing of one optimizer object with an independent 
     "harness' own (f - target) * weight norm under the row's target mask must reproduce the logged penalty (rtol 1e-12) and target values.",
     "trusted: CPython 3.12, numpy, Hypothesis; the harness' numpy user functions. No action faults (outside this property's quantifier). "
     "Bounded search (<= 10 calls, n <= 4, m <= 5).", "DESIGN.md 4/C15")
+
+chk("C19", "grammar-based generation (own walker over calc_grammar) with a three-way differential: deferred vs immediate vs Python evaluation of the derivation tree",
+    "Strings derived from the MAD-X grammar (every production, every NUMBER form, dotted / underscore / % / leading-dot names, "
+    "element->attribute, 1- and 2-argument functions, random inline whitespace) in natural and fully parenthesised rendering, in item and "
+    "attr element mode: the deferred expression over refs, the immediate evaluation over plain data and the harness' Python evaluation "
+    "of the derivation tree must agree bit for bit or all fail; after changing variables and element attributes through the manager they "
+    "must agree again and a variable defined as the deferred expression must hold the immediate value (push path).",
+    TRUST + " When the immediate evaluation hits a division by zero nothing is required of the deferred one (documented NaN deviation); "
+    "if both fail the exception types may differ (evaluation order).", "DESIGN.md 4/C19")
